@@ -51,7 +51,9 @@ class Driver:
         else:
             self.cur = None
             if self.nsb is not None:
-                byte = b.call_term(*ns[0])[2][3]
+                byte = peel_all(expand_vars(b, b.call_term(*ns[0])[2][3]))
+                while byte[0] in ('conv', 'cast'):
+                    byte = peel_all(byte[2])
                 if byte[0] == 'idx' and byte[2][0] == 'v':
                     self.cur = byte[2]
         if self.inp is None or self.aut is None or (self.over and self.state is None):
@@ -553,15 +555,16 @@ def r19_1(cx):
             if d.plus1(v):
                 incr.append(db)
                 continue
-            # cursor = i guarded by i > cursor
-            if is_var(v):
+            # cursor = i guarded by i > cursor (i: any spelling of one value, e.g. the payload of the prefilter's answer)
+            keepcur = (lambda x: x == d.cur or (x[0] == 'v' and 1 <= x[2] <= b.j['arg_count']))
+            ivx = peel_all(expand_vars(b, val, keep=keepcur))
+            if ivx != d.cur and not d.plus1(ivx):
                 iv = v
-                ivx = peel_all(expand_vars(b, iv, keep=('at', 'state', 'input')))
 
                 def fn(y, iv=iv, ivx=ivx):
                     if y == d.cur:
                         return atom('CUR')
-                    if y == iv or (is_var(y) and peel_all(expand_vars(b, y, keep=('at', 'state', 'input'))) == ivx):
+                    if y == iv or (isinstance(y, tuple) and y[0] in ('v', 'f', 't') and peel_all(expand_vars(b, y, keep=keepcur)) == ivx):
                         return atom('I')
                     return None
                 gates = []
